@@ -18,6 +18,13 @@ HERE = os.path.dirname(os.path.dirname(os.path.abspath(__file__)))
 REPO = "/repo"
 
 
+TOKEN_SWAPS = [(" == ", " != "), (" != ", " == "), (" < ", " <= "), (" <= ", " < "), (" > ", " >= "), (" >= ", " > "), (" and ", " or "),
+               (" or ", " and "), ("True", "False"), ("False", "True"), (" + 1", " + 0"), (" - 1", " - 0"), ("[1:]", "[0:]"), ("[4:]", "[3:]"),
+               (" not ", " "), ("is not None", "is None"), (" is None", " is not None"), (" in ", " not in "), ("[0]", "[-1]"), ("[-1]", "[0]"),
+               (".append(", ".insert(0, "), ("sorted(", "list("), (" % 2", " % 3"), (">> 1", ">> 2"), ("& 7", "& 15"), ("& 15", "& 7"),
+               ("* 2", "* 1"), ("// 2", "// 1"), ("len(", "bool(")]
+
+
 def sh(cmd, cwd=None, env=None, timeout=1800):
     p = subprocess.run(cmd, shell=True, cwd=cwd, env=env, capture_output=True, text=True, timeout=timeout)
     return p.returncode, p.stdout + p.stderr
@@ -53,7 +60,8 @@ def worker(args):
             r["checks"] = fired
             r["caught"] = any(v["rc"] == 1 for v in fired.values())
         res.append(r)
-        open(path, "w").write("\n".join(orig))
+        # the whole worktree is reset, not only the mutated file: a mutant may have made a test overwrite a fixture
+        sh("git checkout -q -- . && git clean -fdq", cwd=wt)
     sh("git -C %s worktree remove --force %s" % (REPO, wt))
     return res
 
@@ -82,6 +90,15 @@ def main():
                 if ln.rstrip().endswith(("(", ",", "[", "{")) or ln.strip().startswith((")", "]", "}")):
                     continue       # part of a multi-line construct
                 jobs.append((i, indent + "pass"))
+            else:
+                # token mode: every applicable single-token replacement on the line is one mutant
+                if ln.strip().startswith(('"', "'", "f\"", "r\"")) or '"""' in ln:
+                    continue
+                code = ln.split("#")[0]
+                for a, b in TOKEN_SWAPS:
+                    k = code.find(a)
+                    if k >= 0:
+                        jobs.append((i, ln[:k] + b + ln[k + len(a):]))
     chunks = [jobs[k::workers] for k in range(workers)]
     out = []
     with cf.ThreadPoolExecutor(max_workers=workers) as ex:
